@@ -56,6 +56,7 @@ package leanhelix
 //@   params ctx newHeight prevBlock canBeFirstLeader
 //@   requires [O13.5.round-heights-strictly-increase] newHeight > lastRoundHeight
 //@   requires [O13.5.round-is-the-state-height] newHeight == caller.state.height
+//@   requires [O13.6.rounds-after-a-commit-are-higher] newHeight > lastCommitHeight
 //@   modifies ghost:lastRoundHeight
 //@   ensures lastRoundHeight == newHeight
 
@@ -81,8 +82,32 @@ package leanhelix
 //@ func (*WorkerLoop).onNewConsensusRound
 //@   props C13 C14
 //@   requires lh.state != nil && lh.filter != nil && lh.filter.state == lh.state && lh.filter.futureCache != nil && lh.state.Contexts != nil
-//@   requires lastRoundHeight <= lh.state.height && ndelivered >= 0
+//@   requires lastRoundHeight <= lh.state.height && lastCommitHeight <= lh.state.height && ndelivered >= 0
 //@   inv [filter.cache] forall k int, i int :: has(lh.filter.futureCache, k) && 0 <= i && i < len(lh.filter.futureCache[k]) ==> lh.filter.futureCache[k][i].BlockHeight() == k && lh.filter.futureCache[k][i].InstanceId() == lh.filter.instanceId && lh.filter.futureCache[k][i].SenderMemberId() != lh.filter.myMemberId
 //@   modifies state.State.height, state.State.view, leanhelix.WorkerLoop.leanHelixTerm, M:S_state_HeightView:Int, ghost:lastRoundHeight, ghost:lastCommitHeight, rawmessagesfilter.RawMessageFilter.consensusMessagesHandler, rawmessagesfilter.RawMessageFilter.latestFutureBlockHeight, M:Int:Slice_Iface, ghost:ndelivered, ghost:delivered
 //@   ensures [O13.state-moves-forward] lh.state.height >= old(lh.state.height)
 //@   ensures [O13.5.rounds-stay-below-state] lastRoundHeight <= lh.state.height && lastRoundHeight >= old(lastRoundHeight)
+//@   ensures [O13.6.commits-stay-below-state] lastCommitHeight <= lh.state.height && lastCommitHeight >= old(lastCommitHeight)
+//@   ensures [frame] lh.state == old(lh.state) && lh.filter == old(lh.filter) && lh.filter.state == lh.state && lh.filter.futureCache == old(lh.filter.futureCache) && lh.state.Contexts == old(lh.state.Contexts) && ndelivered >= 0
+
+//@ func (*WorkerLoop).onCommit
+//@   props C13 C03
+//@   requires lh.state != nil && lh.filter != nil && lh.filter.state == lh.state && lh.filter.futureCache != nil && lh.state.Contexts != nil
+//@   requires lastRoundHeight <= lh.state.height && ndelivered >= 0
+//@   inv [filter.cache] forall k int, i int :: has(lh.filter.futureCache, k) && 0 <= i && i < len(lh.filter.futureCache[k]) ==> lh.filter.futureCache[k][i].BlockHeight() == k && lh.filter.futureCache[k][i].InstanceId() == lh.filter.instanceId && lh.filter.futureCache[k][i].SenderMemberId() != lh.filter.myMemberId
+//@   requires [O13.6.commit-for-the-current-height-only-once] block != nil && block.Height() == lh.state.height && lastCommitHeight < block.Height()
+//@   modifies state.State.height, state.State.view, leanhelix.WorkerLoop.leanHelixTerm, M:S_state_HeightView:Int, ghost:lastRoundHeight, ghost:lastCommitHeight, rawmessagesfilter.RawMessageFilter.consensusMessagesHandler, rawmessagesfilter.RawMessageFilter.latestFutureBlockHeight, M:Int:Slice_Iface, ghost:ndelivered, ghost:delivered
+//@   ensures [O13.6.recorded] lastCommitHeight >= old(block.Height()) && lastCommitHeight <= lh.state.height
+//@   ensures [O13.state-moves-forward] lh.state.height >= old(lh.state.height)
+
+//@ func (*WorkerLoop).handleUpdateState
+//@   props C14 C13
+//@   requires receivedBlockWithProof != nil
+//@   requires lh.state != nil && lh.filter != nil && lh.filter.state == lh.state && lh.filter.futureCache != nil && lh.state.Contexts != nil
+//@   requires lastRoundHeight <= lh.state.height && lastCommitHeight <= lh.state.height && ndelivered >= 0
+//@   inv [filter.cache] forall k int, i int :: has(lh.filter.futureCache, k) && 0 <= i && i < len(lh.filter.futureCache[k]) ==> lh.filter.futureCache[k][i].BlockHeight() == k && lh.filter.futureCache[k][i].InstanceId() == lh.filter.instanceId && lh.filter.futureCache[k][i].SenderMemberId() != lh.filter.myMemberId
+//@   modifies state.State.height, state.State.view, leanhelix.WorkerLoop.leanHelixTerm, M:S_state_HeightView:Int, ghost:lastRoundHeight, ghost:lastCommitHeight, rawmessagesfilter.RawMessageFilter.consensusMessagesHandler, rawmessagesfilter.RawMessageFilter.latestFutureBlockHeight, M:Int:Slice_Iface, ghost:ndelivered, ghost:delivered
+//@   ensures [O14.2.stale-sync-changes-nothing] blockheight.GetBlockHeight(receivedBlockWithProof.block) < old(lh.state.height) ==> lh.state.height == old(lh.state.height) && lh.state.view == old(lh.state.view)
+//@     | && lh.leanHelixTerm == old(lh.leanHelixTerm) && lastRoundHeight == old(lastRoundHeight) && ndelivered == old(ndelivered)
+//@   ensures [O14.4.after-an-accepted-sync-the-node-is-above-the-block] lh.state.height >= old(lh.state.height)
+//@   assert before call onNewConsensusRound [O14.2.not-first-leader-after-sync] $canBeFirstLeader == false && $prevBlock == receivedBlockWithProof.block
